@@ -265,6 +265,46 @@ def run(ctx):
                                                             'dict(rename=)': dd.brief(), 'expected_keys': want2}, mech=f"e2e-explicit-dict-rename:{st}>{st2}")
                     break
 
+    # ---- styles meeting aliases, set-only views and multiple inheritance ----------------------------------------------------------
+    for k in range(6):
+        rng = ctx.rng('e2e-seams', k)
+        f0, f1 = rng.sample([p_ for p_ in pool if '_' in p_], 2)
+        for st in STYLES:
+            ins = rng.choice(((st,), (st, STYLES[(STYLES.index(st) + 2) % 5]), ('snake', st)))
+            ns = {'__annotations__': {f0: int, f1: int}, '__module__': __name__, f1: env.pfield(default=7, aliases=('fn', 'f-n'))}
+            mk = observe(lambda: type(f"RS{next(_serial)}", (env.PaneBase,), ns, in_rename=ins, out_rename=st))
+            ctx.count('end_to_end_seam_classes')
+            if mk.kind != 'value':
+                ctx.violation('rename-laws', 'e2e', k, {'fields': [f0, f1], 'in_rename': ins, 'class_creation': mk.brief()}, mech=f"e2e-seam-class-creation:{st}")
+                continue
+            cls = mk.val
+            # a field WITH aliases still answers to its own name in every input style, and to its aliases
+            for ist in ins:
+                for key1 in (canonical(f1, ist), 'fn', 'f-n'):
+                    r = observe(cls.from_data, {canonical(f0, ist): 1, key1: 2})
+                    if r.kind != 'value' or getattr(r.val, f1) != 2:
+                        ctx.violation('rename-laws', 'e2e', k, {'fields': [f0, f1 + " (aliases 'fn', 'f-n')"], 'in_rename': ins, 'key': key1, 'outcome': r.brief()},
+                                      mech=f"e2e-aliased-field-own-name:{ist}")
+                        break
+            # set-only view in another style: exactly the fields that were given, under their restyled names
+            inst = cls(1)
+            for st2 in STYLES:
+                dd = observe(inst.dict, set_only=True, rename=st2)
+                if dd.kind != 'value' or list(dd.val.keys()) != [canonical(f0, st2)]:
+                    ctx.violation('rename-laws', 'e2e', k, {'fields': [f0, f1], 'given': [f0], 'style': st2, 'dict(set_only, rename)': dd.brief()}, mech=f"e2e-set-only-rename:{st2}")
+                    break
+            # a subclass listing a plain mixin FIRST still inherits the styled parent's options
+            mixin = type('PlainMixin', (), {'helper': lambda self: 1})
+            mk3 = observe(lambda: type(f"RM{next(_serial)}", (mixin, cls), {'__annotations__': {'zz_new': int}, 'zz_new': 0, '__module__': __name__}))
+            if mk3.kind == 'value':
+                d3 = observe(mk3.val(1).into_data)
+                want3 = [canonical(f0, st), canonical(f1, st), canonical('zz_new', st)]
+                if d3.kind != 'value' or list(d3.val.keys()) != want3:
+                    ctx.violation('rename-laws', 'e2e', k, {'bases': ['PlainMixin', 'styled parent'], 'style': st, 'into_data': d3.brief(), 'expected_keys': want3},
+                                  mech=f"e2e-mixin-first-loses-style:{st}")
+            else:
+                ctx.violation('rename-laws', 'e2e', k, {'bases': ['PlainMixin', 'styled parent'], 'class_creation': mk3.brief()}, mech='e2e-mixin-first-class-creation')
+
     # ---- thorough: sampled names over the whole alphabet -------------------------------------------------------------------------
     if ctx.tier == 'thorough':
         special = ('ii', 'll', 'id', 'url', 'abb', 'io', 'ss', 'ij', 'lj', 'nj', 'dz', 'ffi', 'fl', 'st', 'ae', 'oe', 'mc', 'mac', 'von', 'de', 'la')
